@@ -2,8 +2,8 @@
    1. lookup laws of transfer / fix_perms / remote_copy
    2. gather = reach (as sets), push closure
    3. push fails on missing objects; exact success criterion
-   4. fetch: frame, provenance of new objects, completeness (under kids_consistent; the
-      unconditional statement is REFUTED by FetchCex below)
+   4. fetch: frame, provenance of new objects, completeness (under man_plain + no_slash); FetchCex is the
+      witness of the defect of the pre-repair merge (keyed by the bare checksum)
    5. checkout only depends on the reachable objects; fetch-then-checkout
    6. scope of rstep_push / rstep_fetch
    7. non-vacuity example *)
@@ -602,7 +602,7 @@ Definition fetch_level (c remote : cache) (missing : list bytes) : res cache :=
   end.
 
 Definition merge_kids (l : list (bytes * artifact)) (acc : list (bytes * artifact)) : list (bytes * artifact) :=
-  fold_left (fun acc kv => ins_sorted (a_cs (snd kv)) (snd kv) acc) l acc.
+  fold_left (fun acc kv => ins_sorted (child_key (snd kv)) (snd kv) acc) l acc.
 
 Fixpoint fetch_kids (c1 : cache) (dirs : list artifact) (acc : list (bytes * artifact))
   : res (list (bytes * artifact)) :=
@@ -650,7 +650,7 @@ Proof.
          | Some o =>
            match dec_manifest (o_data o) with
            | None => Err
-           | Some m => kids r0 (fold_left (fun acc0 kv => ins_sorted (a_cs (snd kv)) (snd kv) acc0) (m_contents m) acc)
+           | Some m => kids r0 (fold_left (fun acc0 kv => ins_sorted (child_key (snd kv)) (snd kv) acc0) (m_contents m) acc)
            end
          end
        end) dirs acc = fetch_kids c1 dirs acc).
@@ -745,18 +745,18 @@ Qed.
 (* the merged children map *)
 Lemma merge_kids_spec l : forall acc,
   (forall key w, alookup key acc = Some w -> exists w', alookup key (merge_kids l acc) = Some w') /\
-  (forall k ch, In (k, ch) l -> exists w, alookup (a_cs ch) (merge_kids l acc) = Some w) /\
-  (forall key w, In (key, w) (merge_kids l acc) -> In (key, w) acc \/ (key = a_cs w /\ exists k, In (k, w) l)).
+  (forall k ch, In (k, ch) l -> exists w, alookup (child_key ch) (merge_kids l acc) = Some w) /\
+  (forall key w, In (key, w) (merge_kids l acc) -> In (key, w) acc \/ (key = child_key w /\ exists k, In (k, w) l)).
 Proof.
   induction l as [|[k0 ch0] r IH]; intros acc; cbn [merge_kids fold_left].
   - split; [intros key w Hw; exists w; exact Hw|]. split; [intros k ch []|]. intros key w Hin. left. exact Hin.
-  - fold (merge_kids r (ins_sorted (a_cs ch0) ch0 acc)). cbn [snd].
-    destruct (IH (ins_sorted (a_cs ch0) ch0 acc)) as (I1 & I2 & I3). split; [|split].
-    + intros key w Hw. destruct (beqb key (a_cs ch0)) eqn:E.
+  - cbn [snd]. fold (merge_kids r (ins_sorted (child_key ch0) ch0 acc)).
+    destruct (IH (ins_sorted (child_key ch0) ch0 acc)) as (I1 & I2 & I3). split; [|split].
+    + intros key w Hw. destruct (beqb key (child_key ch0)) eqn:E.
       * apply (I1 key ch0). rewrite alookup_ins_sorted, E. reflexivity.
       * apply (I1 key w). rewrite alookup_ins_sorted, E. exact Hw.
     + intros k ch [Heq|Hin].
-      * injection Heq as -> ->. apply (I1 (a_cs ch) ch). rewrite alookup_ins_sorted, beqb_refl. reflexivity.
+      * injection Heq as -> ->. apply (I1 (child_key ch) ch). rewrite alookup_ins_sorted, beqb_refl. reflexivity.
       * exact (I2 k ch Hin).
     + intros key w Hin. destruct (I3 key w Hin) as [Hin'|(E & k & Hk)].
       * apply in_ins_sorted in Hin' as [Heq|Hin'].
@@ -773,8 +773,8 @@ Lemma fetch_kids_spec c1 dirs : forall acc out,
   (forall key w, alookup key acc = Some w -> exists w', alookup key out = Some w') /\
   (forall a, In a dirs -> exists o m, cget c1 (a_cs a) = Some o /\ dec_manifest (o_data o) = Some m /\
                                       forall k ch, In (k, ch) (m_contents m) ->
-                                                   exists w, alookup (a_cs ch) out = Some w) /\
-  (forall key w, In (key, w) out -> In (key, w) acc \/ (key = a_cs w /\ exists a, In a dirs /\ kid_of c1 a w)).
+                                                   exists w, alookup (child_key ch) out = Some w) /\
+  (forall key w, In (key, w) out -> In (key, w) acc \/ (key = child_key w /\ exists a, In a dirs /\ kid_of c1 a w)).
 Proof.
   induction dirs as [|a r IH]; intros acc out Hk; cbn [fetch_kids] in Hk.
   - injection Hk as <-. split; [intros key w Hw; exists w; exact Hw|]. split; [intros a []|].
@@ -873,10 +873,51 @@ Inductive desc (c : cache) (arts : list artifact) : artifact -> Prop :=
 | desc_top a ch : In a arts -> a_skip a = false -> a_isdir a = true -> kid_of c a ch -> desc c arts ch
 | desc_step a ch : desc c arts a -> a_skip a = false -> a_isdir a = true -> kid_of c a ch -> desc c arts ch.
 
-(* manifest children with equal checksums agree on kind and skip flag *)
-Definition kids_consistent (c : cache) (arts : list artifact) : Prop :=
-  forall x y, desc c arts x -> desc c arts y -> a_cs x = a_cs y ->
-              a_isdir x = a_isdir y /\ a_skip x = a_skip y.
+(* What the merge of one level still needs after the repair (key = checksum, plus a slash for
+   directories): children under the same key agree on the skip flag, and the two key spaces do
+   not meet, i.e. no file child has a slash in its checksum (true of hex digests). *)
+Definition kids_skip_consistent (c : cache) (arts : list artifact) : Prop :=
+  forall x y, desc c arts x -> desc c arts y -> child_key x = child_key y -> a_skip x = a_skip y.
+Definition no_slash (c : cache) (arts : list artifact) : Prop :=
+  forall x, desc c arts x -> a_isdir x = false -> ~ In 47 (a_cs x).
+Definition kids_ok (c : cache) (arts : list artifact) : Prop :=
+  kids_skip_consistent c arts /\ no_slash c arts.
+
+Lemma kids_ok_sub c c' arts arts' :
+  (forall x, desc c' arts' x -> desc c arts x) -> kids_ok c arts -> kids_ok c' arts'.
+Proof.
+  intros Hsub (HSK & HNS). split.
+  - intros x y Hx Hy. apply HSK; apply Hsub; assumption.
+  - intros x Hx. apply HNS. apply Hsub. exact Hx.
+Qed.
+
+(* children of decoded manifests carry no flags (man_plain, part of cache_inv): the skip clause
+   is then automatic *)
+Lemma desc_plain c arts x : man_plain c -> desc c arts x -> a_skip x = false.
+Proof.
+  intros Hmp Hx.
+  assert (Hk : forall a, kid_of c a x -> a_skip x = false).
+  { intros a (o & m & k & Ho & Hm & Hin). pose proof (Hmp _ _ _ Ho Hm) as Hp. rewrite Forall_forall in Hp.
+    destruct (Hp _ Hin) as (_ & E). exact E. }
+  destruct Hx as [a x _ _ _ Hkx|a x _ _ _ Hkx]; exact (Hk a Hkx).
+Qed.
+
+Lemma kids_ok_of_man_plain c arts : man_plain c -> no_slash c arts -> kids_ok c arts.
+Proof.
+  intros Hmp HNS. split; [|exact HNS]. intros x y Hx Hy _.
+  rewrite (desc_plain _ _ _ Hmp Hx), (desc_plain _ _ _ Hmp Hy). reflexivity.
+Qed.
+
+Lemma child_key_inj x y :
+  (a_isdir x = false -> ~ In 47 (a_cs x)) -> (a_isdir y = false -> ~ In 47 (a_cs y)) ->
+  child_key x = child_key y -> a_cs x = a_cs y /\ a_isdir x = a_isdir y.
+Proof.
+  unfold child_key. intros Hx Hy E. destruct (a_isdir x) eqn:Ex, (a_isdir y) eqn:Ey.
+  - apply app_inv_tail in E. split; [exact E|reflexivity].
+  - exfalso. apply (Hy eq_refl). rewrite <- E. apply in_or_app. right. left. reflexivity.
+  - exfalso. apply (Hx eq_refl). rewrite E. apply in_or_app. right. left. reflexivity.
+  - split; [exact E|reflexivity].
+Qed.
 
 Lemma desc_mono c arts arts' :
   (forall a, In a arts' -> a_skip a = false -> a_isdir a = true -> In a arts \/ desc c arts a) ->
@@ -895,7 +936,7 @@ Qed.
 
 Theorem fetch_complete_gen fuel : forall arts c r c',
   fetch_arts fuel arts c r = Ok c' ->
-  kids_consistent c' arts ->
+  kids_ok c' arts ->
   forall a, In a arts -> a_skip a = false ->
   forall F d, In d (reach F a c') -> exists o, cget c' d = Some o.
 Proof.
@@ -919,20 +960,23 @@ Proof.
   assert (Hkidc' : forall x, In x (noskip arts) -> a_isdir x = true -> forall y, kid_of c1 x y -> desc c' arts y).
   { intros x Hx Hxd y Hy. apply in_noskip in Hx as (Hx & Hxs).
     eapply desc_top; [exact Hx|exact Hxs|exact Hxd|]. exact (kid_of_frame _ _ _ _ Hfr Hy). }
-  assert (Hdw : forall key w0, In (key, w0) children -> key = a_cs w0 /\ desc c' arts w0).
+  assert (Hdw : forall key w0, In (key, w0) children -> key = child_key w0 /\ desc c' arts w0).
   { intros key w0 Hin. destruct (K3 _ _ Hin) as [[]|(E & x & Hx & Hkid)]. split; [exact E|].
     apply filter_In in Hx as (Hx & Hxd). exact (Hkidc' x Hx Hxd w0 Hkid). }
-  destruct (Hdw _ _ Hwin') as (Ecs & Hdescw).
+  destruct (Hdw _ _ Hwin') as (Ekey & Hdescw).
   assert (Hdescch : desc c' arts ch).
   { apply (Hkidc' a Hans Hdir). exists o, m, k. repeat split; assumption. }
-  destruct (HKC ch w Hdescch Hdescw Ecs) as (Ed & Esk).
+  destruct HKC as (HSK & HNS).
+  destruct (child_key_inj ch w (HNS ch Hdescch) (HNS w Hdescw) Ekey) as (Ecs & Ed).
+  pose proof (HSK ch w Hdescch Hdescw Ekey) as Esk.
   destruct (a_skip ch) eqn:Hchs.
   { destruct F as [|F]; [destruct Hd|]. cbn [reach] in Hd. rewrite Hchs in Hd. destruct Hd. }
   rewrite (reach_ext F ch w c' Ecs Ed) in Hd by (rewrite Hchs; exact Esk).
   refine (IH (map snd children) c1 r c' Hrec _ w _ _ F d Hd).
-  - intros x y Hx Hy. apply HKC; (eapply desc_mono; [|eassumption]);
-      intros a0 Ha0 _ _; right; apply in_map_iff in Ha0 as ([key w0] & <- & Hin); exact (proj2 (Hdw _ _ Hin)).
-  - apply in_map_iff. exists (a_cs ch, w). split; [reflexivity|exact Hwin'].
+  - apply (kids_ok_sub c' c' arts); [|split; assumption].
+    apply desc_mono. intros a0 Ha0 _ _. right. apply in_map_iff in Ha0 as ([key w0] & <- & Hin).
+    exact (proj2 (Hdw _ _ Hin)).
+  - apply in_map_iff. exists (child_key ch, w). split; [reflexivity|exact Hwin'].
   - rewrite <- Esk. reflexivity.
 Qed.
 
@@ -943,31 +987,57 @@ Theorem C11_fetch_complete fuel arts c r c' :
   (forall d o, cget c d = Some o -> cget c' d = Some o) /\
   (forall d o', cget c d = None -> cget c' d = Some o' ->
      o_mode o' = cache_perms /\ exists orr, cget r d = Some orr /\ o_data o' = o_data orr) /\
-  (kids_consistent c' arts ->
+  (man_plain c' -> no_slash c' arts ->
    forall a, In a arts -> a_skip a = false ->
    forall fuel' d, In d (reach fuel' a c') -> exists o, cget c' d = Some o).
 Proof.
   intros Hf. split; [exact (fetch_le _ _ _ _ _ Hf)|]. split; [exact (fetch_frame _ _ _ _ _ Hf)|]. split.
   - intros d o' Hn Hd. destruct (fetch_new _ _ _ _ _ Hf d o' Hn Hd) as (orr & Horr & ->).
     split; [reflexivity|]. exists orr. split; [exact Horr|reflexivity].
-  - exact (fetch_complete_gen _ _ _ _ _ Hf).
-Qed.
-
-(* the global form of the hypothesis: over all manifests of the resulting cache *)
-Definition kids_consistent_all (c : cache) : Prop :=
-  forall a b x y, kid_of c a x -> kid_of c b y -> a_cs x = a_cs y ->
-                  a_isdir x = a_isdir y /\ a_skip x = a_skip y.
-
-Lemma kids_consistent_of_all c arts : kids_consistent_all c -> kids_consistent c arts.
-Proof.
-  intros Hall x y Hx Hy. destruct Hx as [a x _ _ _ Hkx|a x _ _ _ Hkx]; destruct Hy as [b y _ _ _ Hky|b y _ _ _ Hky];
-    exact (Hall a b x y Hkx Hky).
+  - intros Hmp HNS. exact (fetch_complete_gen _ _ _ _ _ Hf (kids_ok_of_man_plain _ _ Hmp HNS)).
 Qed.
 
 Print Assumptions C11_fetch_complete.
 
-(* ---- the unconditional statement is false ---- *)
+(* ---- the pre-repair merge (keyed by the bare checksum) loses objects ---- *)
 Module FetchCex.
+  (* LocalCache.Fetch before the repair: identical to fetch_arts except for the merge key *)
+  Fixpoint fetch_arts_old (fuel : nat) (arts : list artifact) (c remote : cache) : res cache :=
+    match fuel with
+    | O => Err
+    | S f =>
+      let arts' := filter (fun a => negb (a_skip a)) arts in
+      if negb (forallb (fun a => has_cs (a_cs a)) arts') then Err
+      else
+        let missing := fold_right (fun a acc => if in_cache c (a_cs a) then acc else add_key (a_cs a) acc) [] arts' in
+        let c1 := match missing with
+                  | [] => Ok c
+                  | _ => remote_copy missing remote c
+                  end in
+        match c1 with
+        | Err => Err
+        | Ok c1 =>
+          let fix kids (dirs : list artifact) (acc : list (bytes * artifact)) : res (list (bytes * artifact)) :=
+            match dirs with
+            | [] => Ok acc
+            | a :: r =>
+              match cget c1 (a_cs a) with
+              | None => Err
+              | Some o =>
+                match dec_manifest (o_data o) with
+                | None => Err
+                | Some m => kids r (fold_left (fun acc kv => ins_sorted (a_cs (snd kv)) (snd kv) acc) (m_contents m) acc)
+                end
+              end
+            end in
+          match kids (filter a_isdir arts') [] with
+          | Err => Err
+          | Ok [] => Ok c1
+          | Ok children => fetch_arts_old f (map snd children) c1 remote
+          end
+        end
+    end.
+
   Definition Hx (b : bytes) : bytes := 1 :: 2 :: 3 :: b.
   Definition str (x : string) : bytes := of_string x.
   Definition hello := str "hello".
@@ -979,24 +1049,35 @@ Module FetchCex.
   Definition c0 : cache := match committed with Ok (_, c, _) => c | Err => [] end.
   Definition a0 : artifact := match committed with Ok (_, _, a) => a | Err => top end.
   Definition r0 : cache := match push_arts [a0] c0 [] with Ok r => r | Err => [] end.
+  Definition fetched_old := fetch_arts_old 64 [a0] [] r0.
+  Definition c1 : cache := match fetched_old with Ok c => c | Err => [] end.
   Definition fetched := fetch_arts 64 [a0] [] r0.
-  Definition c1 : cache := match fetched with Ok c => c | Err => [] end.
+  Definition c2 : cache := match fetched with Ok c => c | Err => [] end.
 
-  (* commit, push and fetch all succeed; three objects are committed and pushed, two fetched *)
+  (* commit, push and both fetches succeed; three objects are committed and pushed *)
   Example commit_ok : exists n, committed = Ok (n, c0, a0) /\ List.length c0 = 3%nat.
   Proof. vm_compute. eexists. split; reflexivity. Qed.
   Example push_ok : push_arts [a0] c0 [] = Ok r0 /\ List.length r0 = 3%nat.
   Proof. vm_compute. split; reflexivity. Qed.
-  Example fetch_ok : fetched = Ok c1 /\ List.length c1 = 2%nat.
+  (* PRE-REPAIR: two of the three objects are fetched *)
+  Example fetch_old_ok : fetched_old = Ok c1 /\ List.length c1 = 2%nat.
   Proof. vm_compute. split; reflexivity. Qed.
   (* the file `sub/x` is reachable but was not fetched: the child `z` (a file) and the child
      `sub` (a directory) have the same checksum, and the file won the slot of the children map *)
-  Example missing : In (Hx hello) (reach 64 a0 c1) /\ cget c1 (Hx hello) = None.
+  Example missing_old : In (Hx hello) (reach 64 a0 c1) /\ cget c1 (Hx hello) = None.
   Proof. vm_compute. split; [right; right; left; reflexivity|reflexivity]. Qed.
-  Example checkout_fails :
+  Example checkout_old_fails :
     checkout_node Hx 64 a0 None c1 Copy = Err /\ checkout_node Hx 64 a0 None c0 Copy = Ok (Some tree).
   Proof. vm_compute. split; reflexivity. Qed.
-  Example all_content_addressed : cache_ok Hx c0 /\ cache_ok Hx r0 /\ cache_ok Hx c1.
+  (* REPAIRED: all three objects are fetched, read-only, and checkout reproduces the tree *)
+  Example fetch_new_ok :
+    fetched = Ok c2 /\ List.length c2 = 3%nat /\
+    forallb (fun d => in_cache c2 d) (reach 64 a0 c2) = true /\
+    forallb (fun kv => o_mode (snd kv) =? cache_perms) c2 = true.
+  Proof. vm_compute. repeat split; reflexivity. Qed.
+  Example checkout_new_ok : checkout_node Hx 64 a0 None c2 Copy = Ok (Some tree).
+  Proof. vm_compute. reflexivity. Qed.
+  Example all_content_addressed : cache_ok Hx c0 /\ cache_ok Hx r0 /\ cache_ok Hx c1 /\ cache_ok Hx c2.
   Proof.
     assert (Hgen : forall c : cache,
               forallb (fun kv => beqb (fst kv) (Hx (o_data (snd kv))) && (o_mode (snd kv) =? cache_perms)) c = true ->
@@ -1004,33 +1085,65 @@ Module FetchCex.
     { intros c Hall d o Hd. apply CheckoutProofs.alookup_In in Hd. rewrite forallb_forall in Hall.
       specialize (Hall _ Hd). cbn [fst snd] in Hall. apply andb_prop in Hall as (E1 & E2).
       apply beqb_eq in E1. apply N.eqb_eq in E2. split; assumption. }
-    split; [|split]; apply Hgen; vm_compute; reflexivity.
+    split; [|split; [|split]]; apply Hgen; vm_compute; reflexivity.
   Qed.
 
-  Theorem fetch_complete_refuted :
-    ~ (forall fuel arts c r c', fetch_arts fuel arts c r = Ok c' ->
+  (* completeness is false for the pre-repair merge, even between content-addressed caches
+     whose manifests carry no flags *)
+  Theorem fetch_old_complete_refuted :
+    ~ (forall fuel arts c r c', fetch_arts_old fuel arts c r = Ok c' ->
          forall a, In a arts -> a_skip a = false ->
          forall fuel' d, In d (reach fuel' a c') -> exists o, cget c' d = Some o).
   Proof.
-    intros Hall. destruct fetch_ok as (Hf & _). destruct missing as (Hin & Hn).
+    intros Hall. destruct fetch_old_ok as (Hf & _). destruct missing_old as (Hin & Hn).
     destruct (Hall 64%nat [a0] [] r0 c1 Hf a0 (or_introl eq_refl) eq_refl 64%nat _ Hin) as (o & Ho).
     rewrite Ho in Hn. discriminate Hn.
   Qed.
 End FetchCex.
-Print Assumptions FetchCex.fetch_complete_refuted.
+Print Assumptions FetchCex.fetch_old_complete_refuted.
+Print Assumptions FetchCex.checkout_new_ok.
 
-(* a sufficient condition in the style of an invariant: children never carry the skip flag
-   (man_plain) and the kind of a child is a function of its checksum *)
-Lemma kids_consistent_of_kind c (kind : bytes -> bool) :
-  man_plain c -> (forall a x, kid_of c a x -> a_isdir x = kind (a_cs x)) -> kids_consistent_all c.
-Proof.
-  intros Hmp Hkind a b x y Hx Hy E. split.
-  - rewrite (Hkind _ _ Hx), (Hkind _ _ Hy), E. reflexivity.
-  - destruct Hx as (o & m & k & Ho & Hm & Hin). destruct Hy as (o2 & m2 & k2 & Ho2 & Hm2 & Hin2).
-    pose proof (Hmp _ _ _ Ho Hm) as Hp. pose proof (Hmp _ _ _ Ho2 Hm2) as Hp2.
-    rewrite Forall_forall in Hp, Hp2. destruct (Hp _ Hin) as (_ & E1). destruct (Hp2 _ Hin2) as (_ & E2).
-    cbn [snd] in E1, E2. rewrite E1, E2. reflexivity.
-Qed.
+(* ---- the no_slash premise is needed: a file checksum ending in a slash meets the key of a
+   directory (toy caches; real digests are hexadecimal) ---- *)
+Module SlashCex.
+  Definition str (x : string) : bytes := of_string x.
+  Definition kx := str "xxx".
+  Definition kd := str "abc".
+  Definition kf := str "abc/".
+  Definition kt := str "top".
+  Definition md := enc_manifest (mkMan (str "d") [(str "x", mkArt kx (str "x") false false false)]).
+  Definition mt := enc_manifest (mkMan (str "data")
+                     [(str "d", mkArt kd (str "d") true false false);
+                      (str "f", mkArt kf (str "f") false false false)]).
+  Definition r0 : cache :=
+    [(kd, mkObj md cache_perms); (kf, mkObj (str "F") cache_perms); (kt, mkObj mt cache_perms);
+     (kx, mkObj (str "X") cache_perms)].
+  Definition a0 := mkArt kt (str "data") true false false.
+  Definition c1 : cache := match fetch_arts 64 [a0] [] r0 with Ok c => c | Err => [] end.
+
+  Example fetch_ok : fetch_arts 64 [a0] [] r0 = Ok c1 /\ List.length c1 = 2%nat.
+  Proof. vm_compute. split; reflexivity. Qed.
+  (* the directory object itself (and with it everything below) is never fetched *)
+  Example missing : In kd (reach 64 a0 c1) /\ cget c1 kd = None.
+  Proof. vm_compute. split; [right; left; reflexivity|reflexivity]. Qed.
+  Example plain : man_plain c1.
+  Proof.
+    intros d o m Hd Hm. apply CheckoutProofs.alookup_In in Hd.
+    destruct Hd as [E|[E|[]]]; injection E as <- <-; vm_compute in Hm; try discriminate Hm;
+      injection Hm as <-; repeat constructor.
+  Qed.
+
+  Theorem no_slash_needed :
+    ~ (forall fuel arts c r c', fetch_arts fuel arts c r = Ok c' -> man_plain c' ->
+         forall a, In a arts -> a_skip a = false ->
+         forall fuel' d, In d (reach fuel' a c') -> exists o, cget c' d = Some o).
+  Proof.
+    intros Hall. destruct fetch_ok as (Hf & _). destruct missing as (Hin & Hn).
+    destruct (Hall 64%nat [a0] [] r0 c1 Hf plain a0 (or_introl eq_refl) eq_refl 64%nat _ Hin) as (o & Ho).
+    rewrite Ho in Hn. discriminate Hn.
+  Qed.
+End SlashCex.
+Print Assumptions SlashCex.no_slash_needed.
 
 (* ================================================================== *)
 (* 5. checkout only reads the reachable objects                        *)
@@ -1177,7 +1290,7 @@ Theorem C11_fetch_then_checkout_gen H fuel a c0 c r c' :
   a_skip a = false -> man_plain c0 ->
   (forall d o0, cget c0 d = Some o0 -> o_mode o0 = cache_perms) ->
   present_all c0 [a] ->
-  kids_consistent c0 [a] ->
+  no_slash c0 [a] ->
   (forall d o, cget c d = Some o -> cget c0 d = Some o) ->
   agree_bytes r c0 ->
   fetch_arts fuel [a] c r = Ok c' ->
@@ -1193,8 +1306,9 @@ Proof.
       cbn [o_data o_mode] in *. rewrite Hm0, Hb. reflexivity. }
   assert (Hagb : agree_bytes c' c0).
   { intros d o' o0 Ho' Ho0. rewrite (Hag _ _ _ Ho0 Ho'). reflexivity. }
-  assert (HKC' : kids_consistent c' [a]).
-  { intros x y Hx Hy. apply HKC; eapply desc_transfer; eassumption. }
+  assert (HKC' : kids_ok c' [a]).
+  { apply (kids_ok_sub c0 c' [a] [a]); [|exact (kids_ok_of_man_plain _ _ Hmp HKC)].
+    intros x Hx. eapply desc_transfer; eassumption. }
   symmetry. apply C11_checkout_agree; [exact Hs|exact Hmp|].
   apply agree_reach; [exact Hag|exact (Hpres a (or_introl eq_refl) Hs)|].
   exact (fetch_complete_gen _ _ _ _ _ Hf HKC' a (or_introl eq_refl) Hs).
@@ -1205,7 +1319,7 @@ Theorem C11_fetch_then_checkout H fuel a c0 c r c' :
   H_inj H -> cache_ok H c0 -> cache_ok H r -> man_plain c0 ->
   a_skip a = false ->
   present_all c0 [a] ->
-  kids_consistent c0 [a] ->
+  no_slash c0 [a] ->
   (forall d o, cget c d = Some o -> cget c0 d = Some o) ->
   fetch_arts fuel [a] c r = Ok c' ->
   forall fuel' slot st, checkout_node H fuel' a slot c' st = checkout_node H fuel' a slot c0 st.
@@ -1436,7 +1550,7 @@ Theorem C11_fetch_stages idx r sps : forall c c',
   (forall d o, cget c d = Some o -> cget c' d = Some o) /\
   (forall d o', cget c d = None -> cget c' d = Some o' ->
      exists orr, cget r d = Some orr /\ o' = mkObj (o_data orr) cache_perms) /\
-  (forall sp, In sp sps -> kids_consistent c' (stage_outputs idx sp) ->
+  (forall sp, In sp sps -> kids_ok c' (stage_outputs idx sp) ->
      forall a, In a (stage_outputs idx sp) -> a_skip a = false ->
      forall F d, In d (reach F a c') -> exists o, cget c' d = Some o).
 Proof.
@@ -1453,8 +1567,9 @@ Proof.
       * rewrite (Hfr _ _ H1) in Hd. injection Hd as <-. exact (fetch_new _ _ _ _ _ Hf1 d o1 Hn H1).
       * exact (Hnew d o' H1 Hd).
     + intros sp0 [<-|Hsp] HKC a Ha Hs F d Hd; [|exact (Hcomp sp0 Hsp HKC a Ha Hs F d Hd)].
-      assert (HKC1 : kids_consistent c1 (stage_outputs idx sp)).
-      { intros x y Hx Hy. apply HKC; eapply desc_frame; eassumption. }
+      assert (HKC1 : kids_ok c1 (stage_outputs idx sp)).
+      { apply (kids_ok_sub c' c1 (stage_outputs idx sp) (stage_outputs idx sp)); [|exact HKC].
+        intros x Hx. eapply desc_frame; eassumption. }
       pose proof (fetch_complete_gen _ _ _ _ _ Hf1 HKC1 a Ha Hs) as Hpres.
       assert (E : reach F a c1 = reach F a c').
       { apply reach_agree. intros d0 Hd0. destruct (Hpres F d0 Hd0) as (o0 & Ho0).
@@ -1521,7 +1636,7 @@ Qed.
 Theorem C11_push_fetch_checkout H a c0 r r' c c' fuel :
   H_inj H -> cache_ok H c0 -> cache_ok H r -> man_plain c0 ->
   a_skip a = false ->
-  kids_consistent c0 [a] ->
+  no_slash c0 [a] ->
   (forall d o, cget c d = Some o -> cget c0 d = Some o) ->
   push_arts [a] c0 r = Ok r' ->
   fetch_arts fuel [a] c r' = Ok c' ->
@@ -1588,7 +1703,7 @@ Module Demo.
   Proof. vm_compute. reflexivity. Qed.
 End Demo.
 
-Print Assumptions FetchCex.checkout_fails.
+Print Assumptions FetchCex.checkout_old_fails.
 Print Assumptions Demo.demo_checkout.
 Print Assumptions Demo.demo_partial.
 
@@ -1597,4 +1712,5 @@ Print Assumptions Demo.demo_partial.
    the manifest JSON of a sibling directory has that directory's checksum; when the file entry
    wins the map slot the directory's contents are never fetched, `dud fetch` exits 0 and
    `dud checkout` then fails with "checksum missing from cache".  FetchCex is that scenario in
-   the model; C11_fetch_complete holds under kids_consistent, which excludes it. *)
+   the model, for the pre-repair merge fetch_arts_old.  REPAIRED: the merge key is now the checksum
+   plus a slash for directories (child_key); the repaired fetch_arts fetches all three objects. *)
